@@ -1225,16 +1225,18 @@ def fault_key(tr, op, f: Fault, out: Outcome, what: str, sess=None) -> str:
 
 
 def _responses_name_their_command(events) -> bool:
-    """HID transcript of one call: does every generic response the host read name the command it had just sent?"""
-    last = None
+    """HID transcript of one call: does the response taken for the answer to each command name that command (if generic)?"""
+    last, first = None, False
     for ev in events:
         if ev[0] == "w" and len(ev[1]) > 4 and ev[1][0] == 1:
-            last = ev[1][4]
+            last, first = ev[1][4], True
         elif ev[0] == "r" and len(ev[2]) >= 16 and ev[2][0] == 3:
             pay = ev[2][4:]
-            if pay[0] == 0xA0 and pay[8] != last:
+            if first and pay[0] == 0xA0 and pay[8] != last:
                 return False  # a generic response carries the tag of the command it answers: the host can tell (repaired)
-            # a typed response (GetProperty, ReadMemory, ...) carries no command tag
+            # a typed response (GetProperty, ReadMemory, ...) carries no command tag; generic responses that arrive later, inside
+            # the data phase, are matched by their command tag by the host itself (it skips those of other commands)
+            first = False
     return last is not None
 
 
